@@ -71,37 +71,66 @@ Theorem C17_lookup_spec : forall x lines st host addr port r,
 Proof. exact kh_match_spec. Qed.
 Print Assumptions C17_lookup_spec.
 
-(* The [host]:port fallback as implemented: the plain-name lookup replaces the whole answer exactly
-   when a port was given and the first lookup found no trusted key and no CA key. *)
+(* The [host]:port fallback: when a port was given and the lookup with the port found no trusted key
+   and no CA key, trusted and CA keys come from the plain-name lookup and the revoked keys from both
+   lookups; otherwise the answer is the lookup with the port. *)
 Theorem C17_port_fallback : forall x st host addr port r,
   kh_lookup_st x st host addr port = Some r ->
   exists r1, kh_match x st host addr port = Some r1 /\
     (((port = 0 \/ r_host r1 <> [] \/ r_ca r1 <> []) /\ r = r1) \/
-     (port <> 0 /\ r_host r1 = [] /\ r_ca r1 = [] /\ kh_match x st host addr 0 = Some r)).
+     (port <> 0 /\ r_host r1 = [] /\ r_ca r1 = [] /\
+      exists r2, kh_match x st host addr 0 = Some r2 /\
+                 r = {| r_host := r_host r2; r_ca := r_ca r2; r_revoked := r_revoked r1 ++ r_revoked r2 |})).
 Proof. exact kh_lookup_fallback. Qed.
 Print Assumptions C17_port_fallback.
 
-(* Full-strength claim "a @revoked line selected for the looked-up [host]:port is reported as revoked"
-   does NOT hold for the code as it stands: the fallback discards the first lookup's revoked list.
-   Witness: lines "h K" and "@revoked [h]:2222 K", lookup of h port 2222. *)
-Theorem C17_revoked_kept_refuted :
+(* A @revoked line that the matching rule selects for the looked-up name (with its port, if any) is in
+   the revoked list of the final answer, whether or not the fallback was taken.  All files, hosts,
+   addresses, ports. (Repaired by 890407a.) *)
+Theorem C17_revoked_kept : forall x lines host addr port r ip p k,
+  kh_lookup_lines x lines host addr port = Some r ->
+  lookup_ip x host addr = Some ip ->
+  In (MRevoked, p, k) (kh_entries x lines) ->
+  line_selects x p (lookup_name host port) (lookup_name addr port) ip = true ->
+  In k (r_revoked r).
+Proof. exact revoked_line_reported. Qed.
+Print Assumptions C17_revoked_kept.
+
+(* The same claim is false of the code before 890407a (definition kh_lookup_lines_old): the fallback
+   discarded the first lookup's revoked list.  Witness: lines "h K" and "@revoked [h]:2222 K", lookup of
+   h port 2222.  Still true of that old definition; kept as the record of the finding. *)
+Theorem C17_revoked_kept_old_refuted :
   exists x lines host port p k r,
     In (MRevoked, p, k) (kh_entries x lines) /\
     line_selects x p (lookup_name host port) [] None = true /\
-    kh_lookup_lines x lines host [] port = Some r /\
+    kh_lookup_lines_old x lines host [] port = Some r /\
     In k (r_host r) /\ ~ In k (r_revoked r).
-Proof. exact revoked_port_fallback_loses_revocation. Qed.
-Print Assumptions C17_revoked_kept_refuted.
+Proof. exact revoked_port_fallback_lost_revocation_old. Qed.
+Print Assumptions C17_revoked_kept_old_refuted.
 
-(* "Only lines with a matching component are returned" fails when a comma list has an empty component
-   and the lookup has no address: line "a, K" is returned for host h. *)
-Theorem C17_only_matching_lines_refuted :
+(* An empty component of a comma list never matches: a line is selected through an exact-name list
+   only by a NON-EMPTY component equal to one of the looked-up names, and the empty wildcard pattern
+   matches no host and no address. (Repaired by 1ebb7df; C17_lookup_spec above is stated with this
+   selection rule.) *)
+Theorem C17_empty_component_never_matches : forall x p h a ip,
+  is_pattern_line p = false -> line_selects x p h a ip = true ->
+  exists c, In c (tsplit 44 p) /\ c <> [] /\ (c = h \/ c = a).
+Proof. exact exact_line_selected_by_nonempty. Qed.
+Print Assumptions C17_empty_component_never_matches.
+
+Theorem C17_empty_wildcard_matches_nothing : forall host addr ip, hp_match (HWild []) host addr ip = false.
+Proof. exact empty_wildcard_matches_nothing. Qed.
+Print Assumptions C17_empty_wildcard_matches_nothing.
+
+(* Before 1ebb7df (kh_lookup_lines_old): line "a, K" was returned for host h when the lookup had no
+   address, although no component matches h. *)
+Theorem C17_only_matching_lines_old_refuted :
   exists x lines host p k r,
     In (MNone, p, k) (kh_entries x lines) /\
     (forall c, In c (tsplit 44 p) -> c <> [] -> wild_match c host = false) /\
-    kh_lookup_lines x lines host [] 0 = Some r /\ In k (r_host r).
-Proof. exact empty_component_matches_any_host. Qed.
-Print Assumptions C17_only_matching_lines_refuted.
+    kh_lookup_lines_old x lines host [] 0 = Some r /\ In k (r_host r).
+Proof. exact empty_component_matched_any_host_old. Qed.
+Print Assumptions C17_only_matching_lines_old_refuted.
 
 (* A line that is blank, a comment, or whose key field the importer rejects with KeyImportError has
    no effect on any lookup, at any position, among any other lines. *)
@@ -111,47 +140,73 @@ Theorem C17_bad_line_skipped : forall x l1 bad l2 host addr port,
 Proof. exact kh_bad_line_skipped. Qed.
 Print Assumptions C17_bad_line_skipped.
 
-(* ... and a raw line  patterns<blank>keyfield  with an unimportable key field is such a line. *)
-Theorem C17_unparsable_key_line : forall x c0 pat d,
-  c0 <> 35 -> c0 <> 64 -> nospace (c0 :: pat) -> trimmed d -> keyof x d = KBad ->
-  kh_parse_line x ((c0 :: pat) ++ 32 :: d) = LSkip.
-Proof. exact kh_unparsable_key_line_skipped. Qed.
-Print Assumptions C17_unparsable_key_line.
+(* Full claim for a damaged key field.  Premise importer_total: the key importer fails with
+   KeyImportError only (what e01fa70 established for impossible key parameters; the correspondence
+   checks on every run that no recorded import outcome violates it).  Then a raw line
+   patterns<blank>keyfield whose key field is not a key, for whatever reason, changes no lookup. *)
+Theorem C17_unparsable_key_line_inert : forall x c0 pat d l1 l2 host addr port,
+  importer_total x ->
+  c0 <> 35 -> c0 <> 64 -> nospace (c0 :: pat) -> trimmed d -> (forall id, keyof x d <> KOk id) ->
+  kh_lookup_lines x (l1 ++ ((c0 :: pat) ++ 32 :: d) :: l2) host addr port =
+  kh_lookup_lines x (l1 ++ l2) host addr port.
+Proof. exact kh_not_a_key_line_inert. Qed.
+Print Assumptions C17_unparsable_key_line_inert.
 
-(* If the key importer raises anything other than KeyImportError on a key field (observed for
-   well-framed blobs with impossible key parameters), the line is not skipped: the file is lost. *)
-Theorem C17_raising_key_refuted :
+(* Why the premise is needed (and what was wrong before e01fa70): with an importer that raises anything
+   other than KeyImportError on some key field, the loader does not skip the line, the file is lost. *)
+Theorem C17_raising_importer_refuted :
   exists x l1 bad l2 host r,
     kh_lookup_lines x (l1 ++ l2) host [] 0 = Some r /\ r_host r <> [] /\
     kh_lookup_lines x (l1 ++ bad :: l2) host [] 0 = None.
 Proof. exact raising_key_breaks_file. Qed.
-Print Assumptions C17_raising_key_refuted.
+Print Assumptions C17_raising_importer_refuted.
 
 (* ---- authorized_keys options ------------------------------------------------------------------------ *)
 
-(* Tokenizer round trip with its own escaping (backslash before every backslash and double quote):
-   any non-empty list of quoted name=value options, any value text. *)
-Theorem C17_tokenize_print : forall opts rest,
-  opts <> [] -> Forall (fun nv => Forall plain (fst nv)) opts ->
-  tokenize (print_opts escape opts ++ 32 :: rest) = Some (map raw_opt opts, strip (32 :: rest)).
-Proof. exact tokenize_print. Qed.
-Print Assumptions C17_tokenize_print.
-
-(* With OpenSSH's quoting (only backslash-quote is an escape) the round trip is proved for values
-   without a backslash only ... *)
+(* Round trip with the quoting OpenSSH documents (value in double quotes, embedded double quote written
+   backslash-quote, nothing else escaped): any non-empty list of options, any value texts - backslashes
+   included - in which no backslash stands directly in front of a double quote. (Repaired by 2e10b73.)
+   _partial: the statement for ALL values is false, see the next theorem. *)
 Theorem C17_openssh_quoting_partial : forall opts rest,
-  opts <> [] -> Forall (fun nv => Forall plain (fst nv)) opts ->
-  Forall (fun nv => ~ In 92 (snd nv)) opts ->
+  opts <> [] -> Forall (fun nv => Forall plain (fst nv)) opts -> Forall (fun nv => safe (snd nv) = true) opts ->
   tokenize (print_opts ossh_escape opts ++ 32 :: rest) = Some (map raw_opt opts, strip (32 :: rest)).
-Proof. exact tokenize_ossh_partial. Qed.
+Proof. exact tokenize_ossh. Qed.
 Print Assumptions C17_openssh_quoting_partial.
 
-(* ... because it fails otherwise: the tokenizer drops every backslash. *)
+(* Remaining deviation of the current code: the value  a backslash quote b , which OpenSSH reads back
+   from its quoted form, is not tokenized back (the tokenizer pairs the value's backslash with the
+   escaping backslash of the quote). *)
 Theorem C17_openssh_quoting_refuted :
   exists n v rest, Forall plain n /\
     tokenize (print_opts ossh_escape [(n, v)] ++ 32 :: rest) <> Some ([raw_opt (n, v)], strip (32 :: rest)).
-Proof. exact tokenize_ossh_backslash_lost. Qed.
+Proof. exact tokenize_ossh_backslash_quote_lost. Qed.
 Print Assumptions C17_openssh_quoting_refuted.
+
+(* Before 2e10b73 (tokenize_old) the round trip already failed for a value that is safe in the sense
+   above: every backslash was dropped. *)
+Theorem C17_openssh_quoting_old_refuted :
+  exists n v rest, Forall plain n /\ safe v = true /\
+    tokenize_old (print_opts ossh_escape [(n, v)] ++ 32 :: rest) <> Some ([raw_opt (n, v)], strip (32 :: rest)).
+Proof. exact tokenize_old_backslash_lost. Qed.
+Print Assumptions C17_openssh_quoting_old_refuted.
+
+(* Option keywords are case-insensitive: name=value and flag options act exactly as their lower-case
+   spelling, for every keyword (ASCII letters), value and option map. (Repaired by c342bf5.) *)
+Theorem C17_keyword_case : forall h m name v,
+  ~ In 61 name -> add_option h m (name ++ 61 :: v) = add_option h m (lower name ++ 61 :: v).
+Proof. exact keyword_case_insensitive. Qed.
+Print Assumptions C17_keyword_case.
+
+Theorem C17_flag_case : forall h m f, ~ In 61 f -> add_option h m f = add_option h m (lower f).
+Proof. exact flag_case_insensitive. Qed.
+Print Assumptions C17_flag_case.
+
+(* Before c342bf5 (add_option_old) FROM=x recorded no from restriction. *)
+Theorem C17_keyword_case_old_refuted :
+  exists m, add_option_old true [] [70; 82; 79; 77; 61; 120] = Some m /\ opt_get m n_from = None /\
+            exists m', add_option true [] [70; 82; 79; 77; 61; 120] = Some m' /\ opt_get m' n_from = Some (VFrom [[120]]).
+Proof. exact keyword_case_old_ignored. Qed.
+Print Assumptions C17_keyword_case_old_refuted.
 
 (* Repeated from= / principals= options accumulate (none is overwritten) ... *)
 Theorem C17_from_repeats : forall m l v,
@@ -211,17 +266,21 @@ Theorem C17_ak_bad_line_skipped : forall x l1 bad l2,
 Proof. exact ak_bad_line_skipped. Qed.
 Print Assumptions C17_ak_bad_line_skipped.
 
-Theorem C17_ak_unparsable_key_line : forall x line m rest,
+(* ... and, with an importer that fails with KeyImportError only, every line whose options parse and
+   whose key field is not a key is such a line. *)
+Theorem C17_ak_not_a_key_line : forall x line m rest,
+  importer_total x ->
   line <> [] -> strip line = line -> hd 0 line <> 35 ->
-  keyof x line = KBad -> parse_options true line = Some (m, rest) -> keyof x rest = KBad ->
+  (forall id, keyof x line <> KOk id) -> parse_options true line = Some (m, rest) ->
+  (forall id, keyof x rest <> KOk id) ->
   ak_parse_line x line = ALSkip.
-Proof. exact ak_unparsable_key_line_skipped. Qed.
-Print Assumptions C17_ak_unparsable_key_line.
+Proof. exact ak_not_a_key_line_skipped. Qed.
+Print Assumptions C17_ak_not_a_key_line.
 
-Theorem C17_ak_raising_key_refuted :
+Theorem C17_ak_raising_importer_refuted :
   exists x l1 bad l2, ak_load_from_lines x (l1 ++ l2) <> None /\ ak_load_from_lines x (l1 ++ bad :: l2) = None.
 Proof. exact ak_raising_key_breaks_file. Qed.
-Print Assumptions C17_ak_raising_key_refuted.
+Print Assumptions C17_ak_raising_importer_refuted.
 
 (* ---- non-vacuity: the hypotheses above are met by concrete, non-trivial inputs --------------------- *)
 
@@ -242,14 +301,34 @@ Example C17_ex_lookup :
     = Some {| r_host := []; r_ca := []; r_revoked := [] |}.
 Proof. vm_compute. auto. Qed.
 
-(* the line "h X" (X not a key) satisfies the hypotheses of C17_unparsable_key_line *)
+(* the line "h X" (X not a key) satisfies the hypotheses of the unparsable-key-line lemma *)
 Example C17_ex_bad_line : kh_parse_line wit_ext [104; 32; 88] = LSkip.
 Proof.
-  apply (C17_unparsable_key_line wit_ext 104 [] [88]); try discriminate.
+  apply (kh_unparsable_key_line_skipped wit_ext 104 [] [88]); try discriminate.
   - repeat constructor.
   - repeat split; discriminate || reflexivity.
   - reflexivity.
 Qed.
+
+(* importer_total is satisfiable: an importer that knows one key and rejects everything else *)
+Example C17_ex_importer_total :
+  importer_total {| keyof := fun d => if zlist_eqb d [75] then KOk 7 else KBad;
+                    b64 := fun _ => None; hmac := fun _ _ => None; ip6 := fun _ => None |}.
+Proof. intros d. cbn. destruct (zlist_eqb d [75]); discriminate. Qed.
+
+(* the repaired behaviours on the two former witnesses *)
+Example C17_ex_revoked_kept :
+  kh_lookup_lines wit_ext [[104; 32; 75]; 64 :: txt_revoked ++ [32; 91; 104; 93; 58; 50; 50; 50; 50; 32; 75]] [104] [] 2222
+  = Some {| r_host := [7]; r_ca := []; r_revoked := [7] |}.
+Proof. exact revoked_port_fallback_now_kept. Qed.
+
+Example C17_ex_empty_component :
+  kh_lookup_lines wit_ext [[97; 44; 32; 75]] [104] [] 0 = Some {| r_host := []; r_ca := []; r_revoked := [] |}.
+Proof. exact empty_component_now_inert. Qed.
+
+(* command with backslashes that are not in front of a quote: safe, so covered by the round trip *)
+Example C17_ex_safe : safe [112;114;105;110;116;102;32;34;37;115;92;110;34;32;111;107] = true.
+Proof. reflexivity. Qed.
 
 (* from="a*",from="!ab" k : both lists are kept and both are required *)
 Example C17_ex_options :
